@@ -259,6 +259,9 @@ func runHapi(toks []string) (string, string) {
 			enc = true
 		}
 	}
+	if k > 0 {
+		wf.Write(&failAfter{n: k}) // the destination breaks: later serializations are not affected
+	}
 	text := wf.String() + "\r\n"
 	wf2, nf, err, _, p := parseOnce([]byte(text), policy, false, 0)
 	if p != "" {
